@@ -17,8 +17,15 @@ package rtpav1
 // --- decoder (C08) -------------------------------------------------------------------------
 // What the decoder keeps between calls is bounded: the partial OBU and the OBUs of the current
 // temporal unit never exceed the maximum temporal unit size, and at most 10 OBUs are kept.
+// sumlen(s, n): total number of bytes in the first n fragments of s. The counter the size
+// check looks at is the number of bytes actually retained (otherwise the cap bounds nothing).
+//@ ufun sumlen(s [][]byte, n int) int = ite(n <= 0, 0, sumlen(s, n-1) + len(s[n-1]))
+//@   lemma[n; t [][]byte] (forall k :: 0 <= k && k < n ==> len(s[k]) == len(t[k])) ==> sumlen(s, n) == sumlen(t, n)
+//@   trigger sumlen(s, n)
+//@   trigger sumlen(t, n)
 //@ typeinv Decoder d
 //@   inv[C08] 0 <= d.fragmentsSize && d.fragmentsSize <= 3145728
+//@   inv[C08] d.fragmentsSize == sumlen(d.fragments, len(d.fragments))
 //@   inv[C08] 0 <= d.frameBufferLen && d.frameBufferLen <= 10
 //@   inv[C08] 0 <= d.frameBufferSize && d.frameBufferSize <= 3145728
 
@@ -47,6 +54,10 @@ package rtpav1
 //@   requires pkt != nil && len(pkt.Payload) <= 65535
 //@   ensures[C08] err == nil ==> len(ret) >= 1
 //@   ensures[C08] d.frameBufferLen == old(d.frameBufferLen) && d.frameBufferSize == old(d.frameBufferSize)
+// C07: a packet that does not continue anything (Z=0) never adds to a partial OBU left behind by
+// an earlier packet: afterwards the decoder holds at most this packet's own last element (or,
+// if the packet was refused, exactly what it held before).
+//@   ensures[C07] len(pkt.Payload) >= 2 && pkt.Payload[0] < 128 ==> len(d.fragments) <= 1 || len(d.fragments) == old(len(d.fragments))
 //@   modifies *
 //@   loop 1
 //@     invariant (len(payload) >= 1 || len(obus) >= 1) && (obus == nil || fresh(obus)) && len(payload) <= 65535
